@@ -60,6 +60,13 @@ func c17Protocols() []c17Opt {
 	}
 }
 
+// c17Opt2 is an effective option value with its derivation.
+type c17Opt2 struct {
+	protos []vanguard.Protocol
+	names  []string
+	why    string
+}
+
 type c17Codec struct {
 	name  string
 	opts  []vanguard.ServiceOption
@@ -170,6 +177,20 @@ func init() {
 		}
 		// services
 		svcMode := c.Choose("services", 4) // 0: Svc, 1: Svc + Other, 2: Svc twice, 3: Svc by name not found
+		// the second service may carry options of its own (isolation between services)
+		op, oc, oz := sp, sc, sz
+		otherOwn := false
+		if svcMode == 1 {
+			if i := c.Choose("other-protocols", 4); i > 0 {
+				op, otherOwn = protos[i-1], true // unset / connect / grpc+grpcweb
+			}
+			if i := c.Choose("other-codecs", 4); i > 0 {
+				oc, otherOwn = codecs[i-1], true // unset / json / alt
+			}
+			if i := c.Choose("other-compression", 4); i > 0 {
+				oz, otherOwn = comps[i-1], true // unset / rev / none
+			}
+		}
 		// rules
 		nRules := c.Choose("rules", 3)
 		type ruleSpec struct {
@@ -234,35 +255,36 @@ func init() {
 		case 3:
 			note("service not found")
 		}
-		if restOnly && len(reasons) == 0 {
-			has := false
+		restOnlyOther := restOnly
+		if eo := pick(dp, op); svcMode == 1 && otherOwn {
+			restOnlyOther = eo.name != "unset" && len(eo.proto) == 1 && eo.proto[0] == vanguard.ProtocolREST
+		}
+		if len(reasons) == 0 {
+			has, hasO := false, false
 			for m := range bound {
 				if strings.HasPrefix(m, "Svc.") {
 					has = true
 				}
+				if strings.HasPrefix(m, "Other.") {
+					hasO = true
+				}
 			}
-			if !has {
+			if restOnly && !has {
 				note("REST-only service without bindings")
 			}
-			if svcMode == 1 {
-				hasO := false
-				for m := range bound {
-					if strings.HasPrefix(m, "Other.") {
-						hasO = true
-					}
-				}
-				if !hasO {
-					note("REST-only service without bindings")
-				}
+			if svcMode == 1 && restOnlyOther && !hasO {
+				note("REST-only service without bindings")
 			}
 		}
 		// ---- build the real thing
-		type hit struct{ method string }
+		type hit struct{ method, codec, comp string }
 		var got []hit
 		handler := http.HandlerFunc(func(w http.ResponseWriter, r *http.Request) {
 			seen := drive.Capture(r)
 			f, _, _ := wire.ClassifyRequest(r.Method, r.URL, seen.Header)
-			got = append(got, hit{method: fmt.Sprintf("%s %s via %s", r.Method, r.URL.Path, f.Family())})
+			_, hcodec, _ := wire.ClassifyRequest(r.Method, r.URL, seen.Header)
+			hcomp := seen.Header.Get("Grpc-Encoding") + seen.Header.Get("Connect-Content-Encoding") + seen.Header.Get("Content-Encoding")
+			got = append(got, hit{method: fmt.Sprintf("%s %s via %s", r.Method, r.URL.Path, f.Family()), codec: hcodec, comp: hcomp})
 			w.Header().Set("Content-Type", r.Header.Get("Content-Type"))
 			w.WriteHeader(200)
 		})
@@ -277,7 +299,11 @@ func init() {
 		services := []*vanguard.Service{vanguard.NewServiceWithSchema(svc, handler, sopts...)}
 		switch svcMode {
 		case 1:
-			services = append(services, vanguard.NewServiceWithSchema(other, handler, sopts...))
+			var oopts []vanguard.ServiceOption
+			oopts = append(oopts, op.opts...)
+			oopts = append(oopts, oc.opts...)
+			oopts = append(oopts, oz.opts...)
+			services = append(services, vanguard.NewServiceWithSchema(other, handler, oopts...))
 		case 2:
 			services = append(services, vanguard.NewServiceWithSchema(svc, handler, sopts...))
 		case 3:
@@ -308,7 +334,7 @@ func init() {
 			topts = append(topts, vanguard.WithRules(hrs...))
 		}
 		tc, err := vanguard.NewTranscoder(services, topts...)
-		desc := fmt.Sprintf("default[protocols=%s codecs=%s compression=%s] service[protocols=%s codecs=%s compression=%s] services=%d rules=%v", dp.name, dc.name, dz.name, sp.name, sc.name, sz.name, svcMode, func() []string {
+		desc := fmt.Sprintf("default[protocols=%s codecs=%s compression=%s] service[protocols=%s codecs=%s compression=%s] other[protocols=%s codecs=%s compression=%s] services=%d rules=%v", dp.name, dc.name, dz.name, sp.name, sc.name, sz.name, op.name, oc.name, oz.name, svcMode, func() []string {
 			var out []string
 			for _, r := range rules {
 				out = append(out, fmt.Sprintf("{selector=%q %s %q body=%q response_body=%q additional=%d}", r.sel.sel, r.pat.method, r.pat.path, r.body.body, r.body.resp, r.addl))
@@ -363,7 +389,7 @@ func init() {
 					return
 				}
 				want := "/verif.c." + strings.Replace(m, ".", "/", 1)
-				if restOnly {
+				if (restOnly && strings.HasPrefix(m, "Svc.")) || (restOnlyOther && strings.HasPrefix(m, "Other.")) {
 					want = url // a REST backend is addressed by the binding's own URL
 				}
 				if len(got) != 1 || !strings.Contains(got[0].method, want+" ") {
@@ -377,28 +403,89 @@ func init() {
 		}
 		// a method that no selector names must not have become reachable through the rules' URLs
 		// (covered above: each probe must reach exactly the named method)
-		// ---- effective options: per-service over default
-		got = nil
-		cr := &wire.ClientReq{Form: wire.GRPCWeb, Path: "/verif.c.Svc/Get", Codec: "proto", Msgs: [][]byte{Enc("proto", MkMsg(`{"name":"x"}`))}}
-		spec := world.SpecFromClient(cr)
-		req, _ := spec.Build(context.Background())
-		rec := drive.NewRecorder()
-		if pi := drive.Serve(tc, rec, rec, req, spec.Body); pi != nil {
-			c.Fail("C17.panic", "probe gRPC-Web Get: %s\n%s", pi.Value, desc)
-			return
-		}
-		if len(got) == 1 {
+		// ---- effective options: per-service over default, separately for every service
+		probe := func(svcName, method string, p, cdc, cmp c17Opt2) bool {
+			got = nil
+			cr := &wire.ClientReq{Form: wire.GRPCWeb, Path: "/verif.c." + svcName + "/" + method, Codec: "proto", Compression: "rev", Accept: []string{"rev"}, Msgs: [][]byte{Enc("proto", MkMsg(`{"name":"x"}`))}}
+			spec := world.SpecFromClient(cr)
+			req, _ := spec.Build(context.Background())
+			rec := drive.NewRecorder()
+			if pi := drive.Serve(tc, rec, rec, req, spec.Body); pi != nil {
+				c.Fail("C17.panic", "probe gRPC-Web %s/%s: %s\n%s", svcName, method, pi.Value, desc)
+				return false
+			}
+			if len(got) != 1 {
+				return true
+			}
 			fam := got[0].method[strings.LastIndex(got[0].method, " ")+1:]
 			ok := false
-			for _, p := range effP {
-				if world.FormToProtocol(map[string]wire.Form{"connect": wire.ConnectUnary, "grpc": wire.GRPC, "grpc-web": wire.GRPCWeb, "rest": wire.REST}[fam]) == p {
+			for _, pp := range p.protos {
+				if world.FormToProtocol(map[string]wire.Form{"connect": wire.ConnectUnary, "grpc": wire.GRPC, "grpc-web": wire.GRPCWeb, "rest": wire.REST}[fam]) == pp {
 					ok = true
 				}
 			}
 			if !ok {
 				c.Attr("class", "options-not-honoured")
-				c.Fail("C17.options-not-honoured", "effective target protocols are %v (per-service %s over default %s) but the backend was addressed via %s\n%s", effP, sp.name, dp.name, fam, desc)
+				c.Fail("C17.options-not-honoured", "service %s: effective target protocols are %v (%s) but the backend was addressed via %s\n%s", svcName, p.protos, p.why, fam, desc)
 			}
+			if fam != "rest" {
+				okc := false
+				for _, n := range cdc.names {
+					if n == got[0].codec {
+						okc = true
+					}
+				}
+				if !okc {
+					c.Attr("class", "options-not-honoured")
+					c.Fail("C17.options-not-honoured", "service %s: effective target codecs are %v (%s) but the backend was addressed in codec %q\n%s", svcName, cdc.names, cdc.why, got[0].codec, desc)
+				}
+			}
+			okz := got[0].comp == "" || got[0].comp == "identity"
+			for _, n := range cmp.names {
+				if n == got[0].comp {
+					okz = true
+				}
+			}
+			if !okz {
+				c.Attr("class", "options-not-honoured")
+				c.Fail("C17.options-not-honoured", "service %s: effective target compressions are %v (%s) but the backend received a request compressed with %q\n%s", svcName, cmp.names, cmp.why, got[0].comp, desc)
+			}
+			return true
+		}
+		eff := func(d, sv c17Opt, dcd, scd, dzc, szc c17Codec) (c17Opt2, c17Opt2, c17Opt2) {
+			var p, cdc, cmp c17Opt2
+			p.protos, p.why = []vanguard.Protocol{vanguard.ProtocolConnect, vanguard.ProtocolGRPC, vanguard.ProtocolGRPCWeb}, "built-in default"
+			if e := pick(d, sv); e.name != "unset" {
+				p.protos, p.why = e.proto, fmt.Sprintf("per-service %s over default %s", sv.name, d.name)
+			}
+			cdc.names, cdc.why = []string{"proto", "json"}, "built-in default"
+			e := scd
+			if e.name == "unset" {
+				e = dcd
+			}
+			if e.name != "unset" {
+				cdc.names, cdc.why = e.names, fmt.Sprintf("per-service %s over default %s", scd.name, dcd.name)
+			}
+			cmp.names, cmp.why = []string{"gzip"}, "built-in default"
+			e = szc
+			if e.name == "unset" {
+				e = dzc
+			}
+			if e.name != "unset" {
+				cmp.names, cmp.why = e.names, fmt.Sprintf("per-service %s over default %s", szc.name, dzc.name)
+			}
+			return p, cdc, cmp
+		}
+		p1, c1, z1 := eff(dp, sp, dc, sc, dz, sz)
+		if !probe("Svc", "Get", p1, c1, z1) {
+			return
+		}
+		if svcMode == 1 {
+			p2, c2, z2 := eff(dp, op, dc, oc, dz, oz)
+			if otherOwn {
+				c.Nontrivial("other-own-options|" + desc + "|" + op.name + oc.name + oz.name)
+			}
+			probe("Other", "Get", p2, c2, z2)
 		}
 	}
 	Register(&Check{
